@@ -21,6 +21,12 @@ func init() {
 		{Name: "eof-cleared-in-front-of-the-return", Rule: "R8.1", Where: "(*fixedHeader).ReadFrom", Edits: []Edit{{"packet.go", "\tm, err := f.remainingLen.ReadFrom(r)\n\treturn n + m, err", "\tm, err := f.remainingLen.ReadFrom(r)\n\tif err == io.EOF {\n\t\terr = nil\n\t}\n\treturn n + m, err"}}},
 		{Name: "header-error-dropped", Rule: "R8.1", Where: "(*fixedHeader).ReadFrom", Edits: []Edit{{"packet.go", "\tm, err := f.remainingLen.ReadFrom(r)\n\treturn n + m, err", "\tm, _ := f.remainingLen.ReadFrom(r)\n\treturn n + m, nil"}}},
 		{Name: "new-error-replaces", Rule: "R8.2", Where: "(*vbint).ReadFrom", Edits: []Edit{{"wiretypes.go", "if _, err := io.ReadFull(r, data); err != nil {\n\t\t\treturn i, err", "if _, err := io.ReadFull(r, data); err != nil {\n\t\t\treturn i, fmt.Errorf(\"short header\")"}}},
+		{Name: "single-exit-second-error-replaces-a-nil-one", Silent: true, Edits: []Edit{{"packet.go", "func (f *fixedHeader) ReadFrom(r io.Reader) (int64, error) {\n\tn, err := f.fixed.ReadFrom(r)\n\tif err != nil {\n\t\treturn n, err\n\t}\n\tm, err := f.remainingLen.ReadFrom(r)\n\treturn n + m, err\n}", "func (f *fixedHeader) ReadFrom(r io.Reader) (n int64, err error) {\n\tif n, err = f.fixed.ReadFrom(r); err == nil {\n\t\tvar m int64\n\t\tm, err = f.remainingLen.ReadFrom(r)\n\t\tn += m\n\t}\n\treturn n, err\n}"}}},
+		{Name: "single-exit-second-error-replaces-an-unexamined-one", Rule: "R8.1", Where: "(*fixedHeader).ReadFrom", Edits: []Edit{{"packet.go", "func (f *fixedHeader) ReadFrom(r io.Reader) (int64, error) {\n\tn, err := f.fixed.ReadFrom(r)\n\tif err != nil {\n\t\treturn n, err\n\t}\n\tm, err := f.remainingLen.ReadFrom(r)\n\treturn n + m, err\n}", "func (f *fixedHeader) ReadFrom(r io.Reader) (n int64, err error) {\n\tif n, err = f.fixed.ReadFrom(r); n > 0 {\n\t\tvar m int64\n\t\tm, err = f.remainingLen.ReadFrom(r)\n\t\tn += m\n\t}\n\treturn n, err\n}"}}},
+		{Name: "wrap-helper-w", Silent: true, Edits: []Edit{{"packet.go", "\tif f.remainingLen == 0 {\n\t\treturn p, nil\n\t}\n\tdata := make([]byte, int(f.remainingLen))\n\tif _, err := io.ReadFull(r, data); err != nil {\n\t\treturn nil, fmt.Errorf(\n\t\t\t\"%s ReadRemaining: %w\",\n\t\t\tfirstByte(f.fixed).String(), err,\n\t\t)\n\t}\n\n\tif err := p.UnmarshalBinary(data); err != nil {\n\t\treturn nil, fmt.Errorf(\n\t\t\t\"%s %v UnmarshalBinary: %w\",\n\t\t\tfirstByte(f.fixed).String(), f.remainingLen, err,\n\t\t)\n\t}\n\treturn p, nil\n}\n", "\tif f.remainingLen > 0 {\n\t\tdata, err := f.readBody(r)\n\t\tif err != nil {\n\t\t\treturn nil, f.wrap(\"ReadRemaining\", err)\n\t\t}\n\t\tif err := p.UnmarshalBinary(data); err != nil {\n\t\t\treturn nil, f.wrap(fmt.Sprintf(\"%v UnmarshalBinary\", f.remainingLen), err)\n\t\t}\n\t}\n\treturn p, nil\n}\n\nfunc (f *fixedHeader) readBody(r io.Reader) ([]byte, error) {\n\tdata := make([]byte, int(f.remainingLen))\n\tif _, err := io.ReadFull(r, data); err != nil {\n\t\treturn nil, err\n\t}\n\treturn data, nil\n}\n\nfunc (f *fixedHeader) wrap(op string, err error) error {\n\treturn fmt.Errorf(\"%s %s: %w\", firstByte(f.fixed).String(), op, err)\n}\n"}}},
+		{Name: "wrap-helper-without-a-default-case", Rule: "R8.2", Where: "ReadRemaining", Edits: []Edit{{"packet.go", "\tif f.remainingLen == 0 {\n\t\treturn p, nil\n\t}\n\tdata := make([]byte, int(f.remainingLen))\n\tif _, err := io.ReadFull(r, data); err != nil {\n\t\treturn nil, fmt.Errorf(\n\t\t\t\"%s ReadRemaining: %w\",\n\t\t\tfirstByte(f.fixed).String(), err,\n\t\t)\n\t}\n\n\tif err := p.UnmarshalBinary(data); err != nil {\n\t\treturn nil, fmt.Errorf(\n\t\t\t\"%s %v UnmarshalBinary: %w\",\n\t\t\tfirstByte(f.fixed).String(), f.remainingLen, err,\n\t\t)\n\t}\n\treturn p, nil\n}\n", "\tif f.remainingLen > 0 {\n\t\tdata, err := f.readBody(r)\n\t\tif err != nil {\n\t\t\treturn nil, f.wrap(\"ReadRemaining\", err)\n\t\t}\n\t\tif err := p.UnmarshalBinary(data); err != nil {\n\t\t\treturn nil, f.wrap(fmt.Sprintf(\"%v UnmarshalBinary\", f.remainingLen), err)\n\t\t}\n\t}\n\treturn p, nil\n}\n\nfunc (f *fixedHeader) readBody(r io.Reader) ([]byte, error) {\n\tdata := make([]byte, int(f.remainingLen))\n\tif _, err := io.ReadFull(r, data); err != nil {\n\t\treturn nil, err\n\t}\n\treturn data, nil\n}\n\nfunc (f *fixedHeader) wrap(op string, err error) error {\n\tvar out error\n\tswitch {\n\tcase err == io.EOF, err == io.ErrUnexpectedEOF:\n\t\tout = fmt.Errorf(\"%s %s: %w\", firstByte(f.fixed).String(), op, err)\n\tcase len(op) > 20:\n\t\tout = fmt.Errorf(\"%s: %w\", firstByte(f.fixed).String(), err)\n\t}\n\treturn out\n}\n"}}},
+		{Name: "wrap-helper-v", Rule: "R8.2", Where: "ReadRemaining", Edits: []Edit{{"packet.go", "\tif f.remainingLen == 0 {\n\t\treturn p, nil\n\t}\n\tdata := make([]byte, int(f.remainingLen))\n\tif _, err := io.ReadFull(r, data); err != nil {\n\t\treturn nil, fmt.Errorf(\n\t\t\t\"%s ReadRemaining: %w\",\n\t\t\tfirstByte(f.fixed).String(), err,\n\t\t)\n\t}\n\n\tif err := p.UnmarshalBinary(data); err != nil {\n\t\treturn nil, fmt.Errorf(\n\t\t\t\"%s %v UnmarshalBinary: %w\",\n\t\t\tfirstByte(f.fixed).String(), f.remainingLen, err,\n\t\t)\n\t}\n\treturn p, nil\n}\n", "\tif f.remainingLen > 0 {\n\t\tdata, err := f.readBody(r)\n\t\tif err != nil {\n\t\t\treturn nil, f.wrap(\"ReadRemaining\", err)\n\t\t}\n\t\tif err := p.UnmarshalBinary(data); err != nil {\n\t\t\treturn nil, f.wrap(fmt.Sprintf(\"%v UnmarshalBinary\", f.remainingLen), err)\n\t\t}\n\t}\n\treturn p, nil\n}\n\nfunc (f *fixedHeader) readBody(r io.Reader) ([]byte, error) {\n\tdata := make([]byte, int(f.remainingLen))\n\tif _, err := io.ReadFull(r, data); err != nil {\n\t\treturn nil, err\n\t}\n\treturn data, nil\n}\n\nfunc (f *fixedHeader) wrap(op string, err error) error {\n\treturn fmt.Errorf(\"%s %s: %v\", firstByte(f.fixed).String(), op, err)\n}\n"}}},
+		{Name: "bytes-buffer-fast-path-without-an-error", Rule: "R8.0", Where: "ReadRemaining", Edits: []Edit{{"packet.go", "import (\n\t\"encoding\"", "import (\n\t\"bytes\"\n\t\"encoding\""}, {"packet.go", "\tdata := make([]byte, int(f.remainingLen))\n\tif _, err := io.ReadFull(r, data); err != nil {\n\t\treturn nil, fmt.Errorf(\n\t\t\t\"%s ReadRemaining: %w\",\n\t\t\tfirstByte(f.fixed).String(), err,\n\t\t)\n\t}\n", "\tvar data []byte\n\tif b, ok := r.(*bytes.Buffer); ok {\n\t\tdata = b.Next(int(f.remainingLen))\n\t} else {\n\t\tdata = make([]byte, int(f.remainingLen))\n\t\tif _, err := io.ReadFull(r, data); err != nil {\n\t\t\treturn nil, fmt.Errorf(\n\t\t\t\t\"%s ReadRemaining: %w\",\n\t\t\t\tfirstByte(f.fixed).String(), err,\n\t\t\t)\n\t\t}\n\t}\n"}}},
 		{Name: "separate-wrap-statement", Silent: true, Edits: []Edit{{"packet.go", "\tif _, err := fh.ReadFrom(r); err != nil {\n\t\treturn nil, fmt.Errorf(\"ReadPacket: %w\", err)\n\t}", "\tif _, err := fh.ReadFrom(r); err != nil {\n\t\twrapped := fmt.Errorf(\"ReadPacket: %w\", err)\n\t\treturn nil, wrapped\n\t}"}}},
 	}})
 }
@@ -41,29 +47,60 @@ func wrapsErr(v, e ssa.Value, depth int) bool {
 			return false
 		}
 		for i, ed := range x.Edges {
-			if isNilConst(ed) {
-				// a nil edge is harmless only where the error cannot be set: the path does not pass the place
-				// the error comes from, or it lies behind `e == nil` (an `if err == io.EOF { err = nil }` in front
-				// of the return clears a failure)
-				pred := x.Block().Preds[i]
-				if ei, ok := e.(ssa.Instruction); ok && ei.Block() != nil {
-					if ei.Block().Dominates(pred) {
-						_, isNil := errEdges(e)
-						if !dominatedByAny(isNil, pred) {
-							return false
-						}
-					}
-				}
+			if wrapsErr(ed, e, depth+1) {
 				continue
 			}
-			if !wrapsErr(ed, e, depth+1) {
-				return false
+			// an edge that carries something else (nil, or the error of a later call) is harmless only where the
+			// error cannot be set: the path does not pass the place the error comes from, or it lies behind
+			// `e == nil` (an `if err == io.EOF { err = nil }` in front of the return clears a failure; in
+			// `if n, err = a(); err == nil { m, err = b() }; return n, err` the second error replaces a nil one)
+			pred := x.Block().Preds[i]
+			ei, ok := e.(ssa.Instruction)
+			passes := true // a parameter is there on every path (`var out error; switch { case …: out = wrap(err) }; return out`)
+			if ok && ei.Block() != nil {
+				passes = ei.Block() == pred || blocksReachableFrom(ei.Block())[pred]
+			}
+			if passes {
+				_, isNil := errEdges(e)
+				if !dominatedByAny(isNil, pred) {
+					return false
+				}
 			}
 		}
 		return true
 	case *ssa.Call:
 		fc := AsFmtCall(x)
-		if fc == nil || fc.Name != "fmt.Errorf" || !fc.ConstF {
+		if fc == nil {
+			// a helper of the library that wraps one of its parameters on every path (`f.wrap(op, err)` returning
+			// fmt.Errorf("%s %s: %w", …, err)): the call wraps e when that argument does
+			sc := x.Call.StaticCallee()
+			if sc == nil || len(sc.Blocks) == 0 || len(x.Call.Args) != len(sc.Params) {
+				return false
+			}
+			k := errorResultIndex(sc.Signature)
+			if k < 0 || sc.Signature.Results().Len() != 1 {
+				return false
+			}
+			for i, a := range x.Call.Args {
+				if !isErrorType(a.Type()) || !wrapsErr(a, e, depth+1) {
+					continue
+				}
+				all, n := true, 0
+				for _, b := range sc.Blocks {
+					if ret, ok := terminator(b).(*ssa.Return); ok {
+						n++
+						if !wrapsErr(ret.Results[k], sc.Params[i], depth+1) {
+							all = false
+						}
+					}
+				}
+				if all && n > 0 {
+					return true
+				}
+			}
+			return false
+		}
+		if fc.Name != "fmt.Errorf" || !fc.ConstF {
 			return false
 		}
 		for i, a := range fc.Args {
@@ -110,8 +147,20 @@ func callResultError(call *ssa.Call, idx int) ssa.Value {
 
 // derivedFrom: is v the buffer or a slice/element address derived from it?
 func derivedFromBuf(v, buf ssa.Value) bool {
+	// the buffer handed to the read may itself be a slice of a local array (`data[:]` of `var data [1]byte`): what
+	// counts is the backing store
+	root := buf
 	for i := 0; i < 6; i++ {
-		if v == buf {
+		if x, ok := root.(*ssa.Slice); ok {
+			root = x.X
+		} else if x, ok := root.(*ssa.ChangeType); ok {
+			root = x.X
+		} else {
+			break
+		}
+	}
+	for i := 0; i < 6; i++ {
+		if v == buf || v == root {
 			return true
 		}
 		switch x := v.(type) {
@@ -162,8 +211,16 @@ func checkC08(p *Prog, c *Check) {
 	var work []errSource
 	reached := map[string]bool{} // origin -> reached ReadPacket
 	nsites := 0
+	seenOther := map[string]bool{}
 	for _, fn := range p.AllFuncs() {
 		for _, u := range p.ReaderUses(fn) {
+			if u.Kind == OtherUse && onPath[fn] && !seenOther[u.Construct()+posOf(p, u.Ins)] {
+				seenOther[u.Construct()+posOf(p, u.Ins)] = true
+				// the stream used other than through a read that reports failure (asserted to a concrete type and
+				// drained through a method without an error result, wrapped, stored …): bytes — or their absence —
+				// arrive without an error to examine
+				c.Bad("R8.0", u.Construct(), posOf(p, u.Ins), "the stream is used other than through a full read ("+u.What+"): what it delivers, or fails to deliver, does not come with an error that R8.1/R8.2 could follow")
+			}
 			if u.Kind != FullRead && u.Kind != BareRead {
 				continue
 			}
@@ -213,7 +270,7 @@ func checkC08(p *Prog, c *Check) {
 			rpos := posOf(p, ret)
 			rv := ret.Results[k]
 			onErr := dominatedByAny(nonNil, b)
-			onNil := dominatedByAny(isNil, b)
+			onNil := behindSince(s.site, isNil, b)
 			wraps := wrapsErr(rv, s.e, 0)
 			switch {
 			case wraps:
@@ -299,7 +356,7 @@ func checkC08(p *Prog, c *Check) {
 					if _, isSl := ins.(*ssa.Slice); isSl {
 						continue
 					}
-					if !dominatedByAny(isNil, b) {
+					if !behindSince(s.site, isNil, b) {
 						okAll = false
 						c.Bad("R8.1", cons, posOf(p, ins), "buffer content is used before the read error has been checked: "+ins.String())
 					}
@@ -331,6 +388,13 @@ func checkC08(p *Prog, c *Check) {
 			continue
 		}
 		for _, u := range p.ReaderUses(fn) {
+			if u.Kind == OtherUse && onPath[fn] && !seenOther[u.Construct()+posOf(p, u.Ins)] {
+				seenOther[u.Construct()+posOf(p, u.Ins)] = true
+				// the stream used other than through a read that reports failure (asserted to a concrete type and
+				// drained through a method without an error result, wrapped, stored …): bytes — or their absence —
+				// arrive without an error to examine
+				c.Bad("R8.0", u.Construct(), posOf(p, u.Ins), "the stream is used other than through a full read ("+u.What+"): what it delivers, or fails to deliver, does not come with an error that R8.1/R8.2 could follow")
+			}
 			if u.Kind != FullRead && u.Kind != BareRead {
 				continue
 			}
